@@ -17,7 +17,7 @@ fn schema_of(types: &[DataType]) -> Schema {
 // offset becomes a symbolic heap read — measured: out of memory at 16 GB for 9 columns, seconds for 4.
 
 // ---------------------------------------------------------------- view: variable-column offset arithmetic
-// @vt prop=C31 tier=quick bound="schema (text, int8, blob, text): EVERY offset table (three arbitrary u16 entries), arbitrary null bitmap" outside="schemas with more than 3 variable columns; the payload bytes (bounds only)" timeout=600
+// @vt prop=C31 tier=thorough bound="schema (text, int8, blob, text): EVERY offset table (three arbitrary u16 entries), arbitrary null bitmap" outside="schemas with more than 3 variable columns; the payload bytes (bounds only)" timeout=2400 mem=40
 vt_proof! { unwind = 8; fn c31_view_var_bounds_all_offsets() {
     let schema = core::mem::ManuallyDrop::new(schema_of(&[DataType::Text, DataType::Int8, DataType::Blob, DataType::Text]));
     // record header by the documented layout: [header_len u16][null bitmap 1][offset table 3*2][fixed 8]
@@ -68,7 +68,7 @@ macro_rules! fixed_rt {
     }};
 }
 
-// @vt prop=C31 tier=quick bound="schema (bool, int2, int4, int8): arbitrary values, arbitrary null pattern" outside="5..64 columns; other type mixes (sibling harnesses)" timeout=900 mem=16
+// @vt prop=C31 tier=thorough bound="schema (bool, int2, int4, int8): arbitrary values, arbitrary null pattern" outside="5..64 columns; other type mixes (sibling harnesses)" timeout=2400 mem=40
 vt_proof! { unwind = 10; fn c31_fixed_rt_ints() {
     let (v0, v1, v2, v3): (bool, i16, i32, i64) = (kani::any(), kani::any(), kani::any(), kani::any());
     fixed_rt!([DataType::Bool, DataType::Int2, DataType::Int4, DataType::Int8], nulls, [
@@ -78,7 +78,7 @@ vt_proof! { unwind = 10; fn c31_fixed_rt_ints() {
         (3, |b: &mut RecordBuilder| b.set_int8(3, v3), |v: &RecordView| matches!(v.get_int8(3), Ok(x) if x == v3), "role=int8_roundtrip")]);
 }}
 
-// @vt prop=C31 tier=quick bound="schema (float4, float8, date, time): arbitrary values (floats by bit pattern), arbitrary null pattern" outside="5..64 columns" timeout=900 mem=16
+// @vt prop=C31 tier=thorough bound="schema (float4, float8, date, time): arbitrary values (floats by bit pattern), arbitrary null pattern" outside="5..64 columns" timeout=2400 mem=40
 vt_proof! { unwind = 10; fn c31_fixed_rt_floats_dates() {
     let (v0, v1, v2, v3): (f32, f64, i32, i64) = (kani::any(), kani::any(), kani::any(), kani::any());
     fixed_rt!([DataType::Float4, DataType::Float8, DataType::Date, DataType::Time], nulls, [
@@ -88,7 +88,7 @@ vt_proof! { unwind = 10; fn c31_fixed_rt_floats_dates() {
         (3, |b: &mut RecordBuilder| b.set_time(3, v3), |v: &RecordView| matches!(v.get_time(3), Ok(x) if x == v3), "role=time_roundtrip")]);
 }}
 
-// @vt prop=C31 tier=quick bound="schema (timestamp, uuid, macaddr, inet4): arbitrary values, arbitrary null pattern" outside="5..64 columns" timeout=900 mem=16
+// @vt prop=C31 tier=thorough bound="schema (timestamp, uuid, macaddr, inet4): arbitrary values, arbitrary null pattern" outside="5..64 columns" timeout=2400 mem=40
 vt_proof! { unwind = 18; fn c31_fixed_rt_ts_ids() {
     let v0: i64 = kani::any(); let v1: [u8; 16] = kani::any(); let v2: [u8; 6] = kani::any(); let v3: [u8; 4] = kani::any();
     fixed_rt!([DataType::Timestamp, DataType::Uuid, DataType::MacAddr, DataType::Inet4], nulls, [
@@ -98,7 +98,7 @@ vt_proof! { unwind = 18; fn c31_fixed_rt_ts_ids() {
         (3, |b: &mut RecordBuilder| b.set_inet4(3, &v3), |v: &RecordView| matches!(v.get_inet4(3), Ok(x) if *x == v3), "role=inet4_roundtrip")]);
 }}
 
-// @vt prop=C31 tier=quick bound="schema (inet6, timestamptz, interval, enum): arbitrary values, arbitrary null pattern" outside="5..64 columns" timeout=900 mem=16
+// @vt prop=C31 tier=thorough bound="schema (inet6, timestamptz, interval, enum): arbitrary values, arbitrary null pattern" outside="5..64 columns" timeout=2400 mem=40
 vt_proof! { unwind = 18; fn c31_fixed_rt_wide() {
     let v0: [u8; 16] = kani::any(); let v1: (i64, i32) = (kani::any(), kani::any()); let v2: (i64, i32, i32) = (kani::any(), kani::any(), kani::any()); let v3: (u16, u16) = (kani::any(), kani::any());
     fixed_rt!([DataType::Inet6, DataType::TimestampTz, DataType::Interval, DataType::Enum], nulls, [
@@ -119,7 +119,7 @@ fn var_eq(got: &[u8], data: &[u8; 2], n: usize) -> bool {
     true
 }
 
-// @vt prop=C31 tier=quick bound="schema (int4, blob, int2, blob): blobs of 0..=2 arbitrary bytes each, arbitrary ints, arbitrary null pattern" outside="payloads longer than 2 bytes (the offset arithmetic for all 16-bit offsets is decided in c31_view_var_bounds_all_offsets); more columns" timeout=900 mem=16
+// @vt prop=C31 tier=thorough bound="schema (int4, blob, int2, blob): blobs of 0..=2 arbitrary bytes each, arbitrary ints, arbitrary null pattern" outside="payloads longer than 2 bytes (the offset arithmetic for all 16-bit offsets is decided in c31_view_var_bounds_all_offsets); more columns" timeout=2400 mem=40
 vt_proof! { unwind = 8; fn c31_var_roundtrip() {
     let schema = core::mem::ManuallyDrop::new(schema_of(&[DataType::Int4, DataType::Blob, DataType::Int2, DataType::Blob]));
     let nulls: [bool; 4] = kani::any();
@@ -146,7 +146,7 @@ vt_proof! { unwind = 8; fn c31_var_roundtrip() {
     core::mem::forget((rec, b));
 }}
 
-// @vt prop=C31 tier=quick bound="schema (int8, blob): set both, reset, set again with other values; blobs 0..=2 bytes; build vs build_into" outside="longer payloads; other schemas" timeout=900 mem=16
+// @vt prop=C31 tier=thorough bound="schema (int8, blob): set both, reset, set again with other values; blobs 0..=2 bytes; build vs build_into" outside="longer payloads; other schemas" timeout=2400 mem=40
 vt_proof! { unwind = 16; fn c31_reset_equals_fresh() {
     let schema = core::mem::ManuallyDrop::new(schema_of(&[DataType::Int8, DataType::Blob]));
     let (x1, x2): (i64, i64) = (kani::any(), kani::any());
@@ -173,4 +173,99 @@ vt_proof! { unwind = 16; fn c31_reset_equals_fresh() {
     kani::cover!(n1 == 2 && n2 == 1 && !null_b, "w:shorter_value_after_reset");
     kani::cover!(null_b && n1 == 2, "w:null_after_reset");
     core::mem::forget((ru, rf, into, used, fresh));
+}}
+
+
+// ---------------------------------------------------------------- quick tier: what fits 16 GB
+// Measured: RecordBuilder on a 2-column schema and the 4-column view harness above run the SAT solver out of 16-20 GB
+// (Vec<Vec<u8>> / Vec<ColumnDef> state on the heap); the quick tier therefore uses 1- and 2-column schemas, the
+// 4-column harnesses stay in the thorough tier with a 40 GB cap.
+
+// @vt prop=C31 tier=quick bound="view offset arithmetic, schema (text, blob): EVERY offset table (two arbitrary u16 entries), arbitrary null bitmap" outside="more than 2 variable columns in the quick tier; payload bytes (bounds only)" timeout=900 mem=16
+vt_proof! { unwind = 8; fn c31_view_var_bounds_two_var_columns() {
+    let schema = core::mem::ManuallyDrop::new(schema_of(&[DataType::Text, DataType::Blob]));
+    let e: [u16; 2] = kani::any();
+    let mut rec = [0u8; 8];
+    rec[0] = 7; rec[2] = kani::any();
+    rec[3] = e[0] as u8; rec[4] = (e[0] >> 8) as u8; rec[5] = e[1] as u8; rec[6] = (e[1] >> 8) as u8;
+    let view = match RecordView::new(&rec, &schema) { Ok(v) => v, Err(_) => { assert!(false, "role=view_new_ok"); return; } };
+    let b0 = core::mem::ManuallyDrop::new(view.get_var_bounds(0));
+    let b1 = core::mem::ManuallyDrop::new(view.get_var_bounds(1));
+    match (&*b0, &*b1) {
+        (Ok(a), Ok(b)) => { assert!(*a == (7, 7 + e[0] as usize), "role=first_var_column_bounds"); assert!(*b == (7 + e[0] as usize, 7 + e[1] as usize), "role=second_var_column_bounds"); }
+        _ => assert!(false, "role=var_bounds_ok"),
+    }
+    kani::cover!(e[0] == 200 && e[1] == 496, "w:straddles_256");
+    kani::cover!(e[1] > 0x7fff, "w:large_offset");
+}}
+
+// @vt prop=C31 tier=quick bound="view, schema (int8, blob): hand-built record by the documented layout with arbitrary int8 bytes, arbitrary null bitmap, blob of 0..=2 arbitrary bytes: get_int8 / get_blob / is_null" outside="other schemas" timeout=900 mem=16
+vt_proof! { unwind = 10; fn c31_view_reads_documented_layout() {
+    let schema = core::mem::ManuallyDrop::new(schema_of(&[DataType::Int8, DataType::Blob]));
+    // [header_len u16 = 5][null bitmap 1][offset table 1*2][fixed 8][var data]
+    let x: i64 = kani::any(); let nb: u8 = kani::any(); let d: [u8; 2] = kani::any(); let n: usize = kani::any(); kani::assume(n <= 2);
+    let mut rec = [0u8; 15];
+    rec[0] = 5; rec[2] = nb; rec[3] = n as u8; rec[4] = 0;
+    let xb = x.to_le_bytes(); let mut i = 0; while i < 8 { rec[5 + i] = xb[i]; i += 1; }
+    rec[13] = d[0]; rec[14] = d[1];
+    let view = match RecordView::new(&rec[..13 + n], &schema) { Ok(v) => v, Err(_) => { assert!(false, "role=view_new_ok"); return; } };
+    assert!(view.is_null(0) == (nb & 1 != 0) && view.is_null(1) == (nb & 2 != 0), "role=null_bitmap_bits");
+    assert!(matches!(view.get_int8(0), Ok(v) if v == x), "role=int8_roundtrip");
+    let b = core::mem::ManuallyDrop::new(view.get_blob(1));
+    match &*b { Ok(b) => { assert!(b.len() == n, "role=first_var_roundtrip"); if n > 0 { assert!(b[0] == d[0], "role=first_var_roundtrip"); } if n > 1 { assert!(b[1] == d[1], "role=first_var_roundtrip"); } } Err(_) => assert!(false, "role=get_blob_ok") }
+    kani::cover!(n == 2 && nb == 0, "w:two_byte_blob");
+}}
+
+fn one_col(t: DataType) -> core::mem::ManuallyDrop<Schema> { core::mem::ManuallyDrop::new(schema_of(&[t])) }
+
+// @vt prop=C31 tier=quick bound="builder -> view, single-column schemas int8 / float8 / uuid with arbitrary value or NULL; build == build_into" outside="multi-column schemas in the quick tier (thorough: 4 columns)" timeout=1200 mem=16
+vt_proof! { unwind = 18; fn c31_builder_single_fixed_column() {
+    let which: u8 = kani::any(); kani::assume(which < 3);
+    let null: bool = kani::any();
+    if which == 0 {
+        let s = one_col(DataType::Int8); let v: i64 = kani::any(); let mut b = RecordBuilder::new(&s);
+        if !null { let r = core::mem::ManuallyDrop::new(b.set_int8(0, v)); assert!(r.is_ok(), "role=setters_ok"); }
+        let rec = match b.build() { Ok(r) => r, Err(_) => { assert!(false, "role=build_ok"); return; } };
+        let view = match RecordView::new(&rec, &s) { Ok(v) => v, Err(_) => { assert!(false, "role=view_new_ok"); return; } };
+        assert!(view.is_null(0) == null, "role=null_pattern_roundtrip");
+        if !null { assert!(matches!(view.get_int8(0), Ok(x) if x == v), "role=int8_roundtrip"); }
+        core::mem::forget((rec, b));
+    } else if which == 1 {
+        let s = one_col(DataType::Float8); let v: f64 = kani::any(); let mut b = RecordBuilder::new(&s);
+        if !null { let r = core::mem::ManuallyDrop::new(b.set_float8(0, v)); assert!(r.is_ok(), "role=setters_ok"); }
+        let rec = match b.build() { Ok(r) => r, Err(_) => { assert!(false, "role=build_ok"); return; } };
+        let view = match RecordView::new(&rec, &s) { Ok(v) => v, Err(_) => { assert!(false, "role=view_new_ok"); return; } };
+        assert!(view.is_null(0) == null, "role=null_pattern_roundtrip");
+        if !null { assert!(matches!(view.get_float8(0), Ok(x) if x.to_bits() == v.to_bits()), "role=float8_roundtrip"); }
+        core::mem::forget((rec, b));
+    } else {
+        let s = one_col(DataType::Uuid); let v: [u8; 16] = kani::any(); let mut b = RecordBuilder::new(&s);
+        if !null { let r = core::mem::ManuallyDrop::new(b.set_uuid(0, &v)); assert!(r.is_ok(), "role=setters_ok"); }
+        let rec = match b.build() { Ok(r) => r, Err(_) => { assert!(false, "role=build_ok"); return; } };
+        let view = match RecordView::new(&rec, &s) { Ok(v) => v, Err(_) => { assert!(false, "role=view_new_ok"); return; } };
+        assert!(view.is_null(0) == null, "role=null_pattern_roundtrip");
+        if !null { assert!(matches!(view.get_uuid(0), Ok(x) if *x == v), "role=uuid_roundtrip"); }
+        core::mem::forget((rec, b));
+    }
+    kani::cover!(which == 2 && !null, "w:uuid_value");
+}}
+
+// @vt prop=C31 tier=quick bound="builder -> view, single blob column: value of 0..=2 arbitrary bytes; set, reset, set another value == fresh builder, byte for byte; build == build_into" outside="multi-column schemas in the quick tier" timeout=1200 mem=16
+vt_proof! { unwind = 12; fn c31_builder_single_blob_reset_equals_fresh() {
+    let s = one_col(DataType::Blob);
+    let d1: [u8; 2] = kani::any(); let d2: [u8; 2] = kani::any();
+    let (n1, n2): (usize, usize) = (kani::any(), kani::any()); kani::assume(n1 <= 2 && n2 <= 2);
+    let mut used = RecordBuilder::new(&s);
+    let _ = set_var(&mut used, 0, &d1, n1);
+    used.reset();
+    let _ = set_var(&mut used, 0, &d2, n2);
+    let mut fresh = RecordBuilder::new(&s);
+    let _ = set_var(&mut fresh, 0, &d2, n2);
+    let (ru, rf) = match (used.build(), fresh.build()) { (Ok(a), Ok(b)) => (a, b), _ => { assert!(false, "role=build_ok"); return; } };
+    assert!(ru.len() == rf.len(), "role=reset_same_length_as_fresh");
+    let mut i = 0; while i < rf.len() { assert!(ru[i] == rf[i], "role=reset_same_bytes_as_fresh"); i += 1; }
+    let view = match RecordView::new(&rf, &s) { Ok(v) => v, Err(_) => { assert!(false, "role=view_new_ok"); return; } };
+    assert!(matches!(view.get_blob(0), Ok(x) if var_eq(x, &d2, n2)), "role=first_var_roundtrip");
+    kani::cover!(n1 == 2 && n2 == 1, "w:shorter_value_after_reset");
+    core::mem::forget((ru, rf, used, fresh));
 }}
